@@ -1616,7 +1616,7 @@ def run(ctx):
     if not ctx.coverage["immutable_files_possible"]:
         ctx.notes.append("chattr +i is not possible on the temp file system: the -clean / -init / -compile cases with an "
                          "undeletable entry / unwritable directory are not exercised in this run")
-    ctx.prove(["Props/C05.vo", "Run/eval_C05.vo"], extra_props=["Compose_C15_C05", "Compose_C04_C05"])   # + compositions C15 <-> C05, C04 => C05 (the dispatch loop is the mention segmentation)
+    ctx.prove(["Props/C05.vo", "Run/eval_C05.vo"], extra_props=["Compose_C15_C05", "Compose_C04_C05", "Compose_bigstep_C05"])   # + compositions C15 <-> C05, C04 => C05 (the dispatch loop is the mention segmentation)
     import extractlib; extractlib.fn_tie(ctx, "C05")   # mg.ExitStatus, sh.ExitStatus, sh.CmdRan re-translated from the tree and proved equal to ExitChain's (DESIGN 3.5)
     ctx.trusted_base += [
         "checks/c05.py: the generated magefile (act: failure palette selected through VERIF_SCEN), the scenario generator, the mapping "
